@@ -34,6 +34,15 @@ impl BoxedFunction {
     { unimplemented!() }
 }
 
+/// std: `BTreeMap::append` moves every entry of `other` into `self` (an entry of `other` replaces one with the same key) and leaves
+/// `other` empty.  ASSUMED (documented behaviour).
+pub assume_specification<K, V, A>[BTreeMap::<K, V, A>::append](m: &mut BTreeMap<K, V, A>, other: &mut BTreeMap<K, V, A>)
+    where A: std::alloc::Allocator + Clone, K: Ord, A: Clone,
+    ensures
+        final(m)@ == old(m)@.union_prefer_right(old(other)@),
+        final(other)@ == Map::<K, V>::empty(),
+;
+
 /// Stand-in for `serde::Serialize` as `RuleSet::evaluate` uses it: the only serializer it is given is `ValueSerializer`, whose
 /// `Ok = Value`, `Error = Error`.  ASSUMED: serializing is a function `ser_spec` of the input (deterministic, no effect on the
 /// ruleset or the invocation log).  What `ser_spec` is for each shape of input is C13's subject (Kani, unit `ser`), not this unit's.
